@@ -541,6 +541,54 @@ Proof. induction fuel as [|f IH]; intros l Hl.
     + exists [], l. split; [reflexivity|]. split; [assumption|]. intros b [].
 Qed.
 
+
+(** aligned full blocks at the front are consumed without a literal *)
+Lemma greedy_skip_blocks full : forall bl fuel rest,
+  (forall b, In b bl -> In b full /\ length b = bs) ->
+  (length (concat bl ++ rest) < fuel)%nat ->
+  exists fuel', (length rest < fuel')%nat /\ greedy_lit fuel full (concat bl ++ rest) = greedy_lit fuel' full rest.
+Proof. induction bl as [|b bl IH]; intros fuel rest Hbl Hf.
+  - exists fuel. split; [exact Hf|reflexivity].
+  - destruct (Hbl b (or_introl eq_refl)) as [Hin Hlb].
+    destruct fuel as [|f]; [lia|]. cbn [concat]. rewrite <- app_assoc. cbn [Delta.greedy_lit].
+    assert (Hlen : (bs <= length (b ++ concat bl ++ rest))%nat) by (rewrite app_length; lia).
+    replace (Nat.leb bs (length (b ++ concat bl ++ rest))) with true by (symmetry; apply Nat.leb_le; exact Hlen).
+    assert (Hfb : firstn bs (b ++ concat bl ++ rest) = b) by (rewrite <- Hlb; apply firstn_app_exact).
+    rewrite Hfb.
+    assert (Hex : existsb (beq b) full = true)
+      by (apply existsb_exists; exists b; split; [assumption|now apply beq_spec]).
+    rewrite Hex.
+    assert (Hsk : skipn bs (b ++ concat bl ++ rest) = concat bl ++ rest)
+      by (rewrite skipn_app_ge by lia; replace (bs - length b)%nat with 0%nat by lia; reflexivity).
+    rewrite Hsk.
+    apply IH; [intros b' Hb'; apply Hbl; now right|].
+    cbn [concat] in Hf. rewrite <- app_assoc, app_length in Hf. lia. Qed.
+
+Lemma greedy_fuel_irrelevant full : forall fuel fuel' rest, (length rest < fuel)%nat -> (length rest < fuel')%nat ->
+  greedy_lit fuel full rest = greedy_lit fuel' full rest.
+Proof. induction fuel as [|f IH]; intros fuel' rest Hf Hf'; [lia|]. destruct fuel' as [|f']; [lia|].
+  cbn [Delta.greedy_lit]. destruct (Nat.leb_spec bs (length rest)) as [Hb|Hb]; [|reflexivity].
+  destruct (existsb _ _).
+  - apply IH; rewrite skipn_length; lia.
+  - destruct rest as [|x r]; [reflexivity|]. f_equal. apply IH; cbn [length] in *; lia. Qed.
+
+(** The cost of an edit (C16, last clause), in decomposed form: when the source is
+    the basis with the region X replaced by Y, written around the block structure
+    of the basis as  blocks ++ Apost ++ [X|Y] ++ Bpre ++ blocks ++ tail  with the
+    three remainders shorter than a block, the textbook scan spends literals on at
+    most Apost, Y, Bpre and the trailing partial block: |Y| + 2(bs-1) + |tail|. *)
+Theorem edit_cost full fuel blA blB Apost Bpre tail Y :
+  (forall b, In b blA -> In b full /\ length b = bs) ->
+  (forall b, In b blB -> In b full /\ length b = bs) ->
+  (length Apost < bs)%nat -> (length Bpre < bs)%nat -> (length tail < bs)%nat ->
+  (length (concat blA ++ (Apost ++ Y ++ Bpre) ++ concat blB ++ tail) < fuel)%nat ->
+  greedy_lit fuel full (concat blA ++ (Apost ++ Y ++ Bpre) ++ concat blB ++ tail)
+  <= Z.of_nat (length Y) + 2 * (Z.of_nat bs - 1) + Z.of_nat (length tail).
+Proof. intros HA HB Ha Hb Ht Hf.
+  destruct (greedy_skip_blocks full blA fuel _ HA Hf) as (fuel' & Hf' & ->).
+  pose proof (greedy_resync full fuel' (Apost ++ Y ++ Bpre) blB tail HB Ht Hf') as R.
+  rewrite !app_length in R. lia. Qed.
+
 End Greedy.
 
 (** a source identical to the basis costs fewer literal bytes than one block *)
